@@ -104,6 +104,51 @@ impl<'de> Deserialize<'de> for AnyVal {
     }
 }
 
+/// hand-written fixed-arity readers: a visitor that takes exactly two items from `deserialize_seq` (K = 0),
+/// `deserialize_tuple(2)` (K = 1) or `deserialize_tuple_struct(_, 2)` (K = 2) and never asks for a third one —
+/// what is left of the list after the last item it took is the deserializer's business, not the visitor's
+#[derive(Debug, PartialEq)]
+pub struct Fixed2<const K: u8>(i64, i64);
+impl<'de, const K: u8> Deserialize<'de> for Fixed2<K> {
+    fn deserialize<D: serde::Deserializer<'de>>(d: D) -> Result<Self, D::Error> {
+        struct V<const K: u8>;
+        impl<'de, const K: u8> serde::de::Visitor<'de> for V<K> {
+            type Value = Fixed2<K>;
+            fn expecting(&self, f: &mut std::fmt::Formatter) -> std::fmt::Result { f.write_str("two integers") }
+            fn visit_seq<A: serde::de::SeqAccess<'de>>(self, mut a: A) -> Result<Fixed2<K>, A::Error> {
+                let x = a.next_element::<i64>()?.ok_or_else(|| serde::de::Error::invalid_length(0, &self))?;
+                let y = a.next_element::<i64>()?.ok_or_else(|| serde::de::Error::invalid_length(1, &self))?;
+                Ok(Fixed2(x, y))
+            }
+        }
+        match K { 0 => d.deserialize_seq(V::<K>), 1 => d.deserialize_tuple(2, V::<K>), _ => d.deserialize_tuple_struct("Fixed2", 2, V::<K>) }
+    }
+}
+
+fn fixed_arity_checks(r: &mut Rng, m: &mut Vec<String>) {
+    fn one<const K: u8>(r: &mut Rng, m: &mut Vec<String>) {
+        let how = ["deserialize_seq", "deserialize_tuple", "deserialize_tuple_struct"][K as usize];
+        let (x, y) = (r.below(2000) as i64 - 1000, crate::gen::boundary_u64(r) as i64);
+        let items = || vec![Value::from(x), Value::from(y)];
+        match serde_lexpr::from_value::<Fixed2<K>>(&Value::list(items())) {
+            Ok(f) if f == Fixed2::<K>(x, y) => {}
+            other => m.push(format!("FAIL C14 a proper two-element list read through {} by a fixed-arity visitor gives {:?}", how, other)),
+        }
+        let tails = [Value::from(3), Value::string("x"), Value::symbol("t"), Value::keyword("k"), Value::from(true), Value::from('c'), Value::from(2.5)];
+        let tail = r.pick(&tails).clone();
+        let v = Value::append(items(), tail);
+        let text = v.to_string();
+        let results = [("from_value", serde_lexpr::from_value::<Fixed2<K>>(&v)), ("from_str", serde_lexpr::from_str::<Fixed2<K>>(&text))];
+        for (entry, res) in results {
+            match res {
+                Ok(f) => m.push(format!("FAIL C14 improper list {} accepted where a sequence of two items is expected ({} / {}, a visitor that takes exactly two items): {:?}", text, entry, how, f)),
+                Err(e) => if e.classify() != serde_lexpr::error::Category::Data { m.push(format!("FAIL C14 improper list {} rejected through {} / {} with a {:?} error instead of a data error", text, entry, how, e.classify())); },
+            }
+        }
+    }
+    one::<0>(r, m); one::<1>(r, m); one::<2>(r, m);
+}
+
 /// what `deserialize_any` must present for a value: atoms as themselves, a vector as the sequence of its elements,
 /// a pair as the two-element sequence (car, cdr) (pinned by the crate's own test `test_deserialize_any_cons`),
 /// the empty list as the empty sequence, #nil as unit; symbols and keywords are rejected with a data error
@@ -246,6 +291,7 @@ pub fn run(seed: u64) -> Vec<String> {
     let mut r = Rng::new(seed);
     let mut m = Vec::new();
     any_checks(&mut r, &mut m);
+    fixed_arity_checks(&mut r, &mut m);
     let b = |r: &mut Rng| -> u8 { *r.pick(&[0u8, 1, 9, 10, 127, 128, 255, 42]) };
     let v4 = Ipv4Addr::new(b(&mut r), b(&mut r), b(&mut r), b(&mut r));
     let mut seg = [0u16; 8]; for s in seg.iter_mut() { *s = *r.pick(&[0u16, 1, 0xffff, 0x2001, 0xdb8, 10]); }
